@@ -214,8 +214,10 @@ pub mod parser {
     }
 
     /// a = {fill: red}
+    /// blanks may follow the closing brace, up to the end of the line
     fn class_and_style<'a>() -> Parser<'a, char, (String, String)> {
         (-space() * ident() - space() - sym('=') - space()) + css_styles()
+            - space()
     }
 
     /// Parses:
